@@ -233,6 +233,12 @@ def scenarios(tier, seed):
                 ('two imports of one node do not share added options', 'size float = 2 cm\n  = 2 cm\na {?size}\n  = 7 cm\nb {?size}\nb.size = 7 cm', False),
                 ('int node: matching an option in another prefix keeps the value and the condition in the node unit', 'n int = 5 m\n  = 200 cm\n  = 5 m\n  !condition ("{?} < 100")\nn = 2 m', True),
                 ('int node: condition in the node unit fails', 'n int = 5 m\n  = 200 cm\n  = 5 m\n  !condition ("{?} > 100")\nn = 2 m', False),
+                ('declared bool never set', 'flag bool', False), ('declared bool set only inside an unselected clause', 'a int = 1\nflag bool\n@case false\n  flag = true\n@end', False),
+                ('declared bool set inside a selected clause', 'a int = 1\nflag bool\n@case true\n  flag = true\n@end', True), ('declared int set only inside an unselected clause', 'k int\n@case false\n  k = 1\n@end', False),
+                ('options in a custom unit, value in the node unit matches', '$unit len = 2 m\nw float = 4 m\n  = 2 [len]\n  = 3 [len]', True),
+                ('options in a custom unit, value matches none', '$unit len = 2 m\nw float = 5 m\n  = 2 [len]\n  = 3 [len]', False),
+                ('!options list in a custom unit', '$unit len = 2 m\nw float = 6 m\n  !options [2,3] [len]', True), ('!options list in a custom unit, no match', '$unit len = 2 m\nw float = 7 m\n  !options [2,3] [len]', False),
+                ('node in a custom unit, option in a standard unit', '$unit len = 2 m\nw float = 2 [len]\n  = 4 m\n  = 1 m', True),
                 ('bool condition holds', "a float = 1\n  !condition ('{?} > 0 && {?} < 2')", True), ('constraint checked on nested node', "g\n  a int = 5\n    = 4\n    = 6", False)]
     S.append(Scenario('strings-and-combinations', STROPT_SRC, {}, consts={'cases': strcases, 'messages': ["doesn't match with any option", 'does not match the format', 'does not fullfil a condition',
                                                                                                        'does not support options', 'Format can be set only', 'Node value must be defined', 'invalid dimension', 'index out of range', 'Array value set to scalar', 'Could not convert', 'inhomogeneous']},
